@@ -1,4 +1,5 @@
 """C17 — the tree visitor performs the documented traversal for any tree and callback."""
+import os
 import random
 
 from vflib import core, build
@@ -16,10 +17,23 @@ def shard_fn(shard, nshards, seed, tier, exe, npairs):
     i = 0
     while i < npairs // nshards:
         toks = gen_tree(rng, budget=[rng.choice([1, 4, 10, 25])])
+        deep = rng.random() < 0.06
+        if deep:
+            # nesting far beyond anything the parser would produce (trees are built through the API): 30..150 levels, arrays and objects mixed
+            # or pure, with siblings before and after the nested child so that indices and keys differ from level to level
+            mode = rng.choice(["arrays", "objects", "mixed"])
+            for lvl in range(rng.choice([30, 31, 32, 33, 34, 40, 64, 65, 100, 150])):
+                before = ["i%d" % lvl] * rng.choice([0, 1, 2, 3])
+                after = ["n"] * rng.choice([0, 0, 1, 2])
+                if mode == "arrays" or (mode == "mixed" and rng.random() < 0.5):
+                    toks = ["["] + before + toks + after + ["]"]
+                else:
+                    toks = ["{"] + sum((["k" + (b"b%d" % j).hex(), t] for j, t in enumerate(before)), []) + ["k" + b"child".hex()] + toks + sum((["k" + (b"a%d" % j).hex(), t] for j, t in enumerate(after)), []) + ["}"]
+            sh.count("trees.nested_30_to_150_levels." + mode)
         cmds = ["B 0 " + " ".join(toks), "D 0 1"]
         scheds = []
         for _ in range(rng.choice([2, 4, 8])):
-            n = rng.choice([0, 1, 2, 5, 12, 30])
+            n = rng.choice([0, 1, 2, 5, 12, 30]) if not deep else rng.choice([0, 5, 60, 150, 400])
             m = rng.random()
             if m < 0.3:
                 sched = [rng.choice(CODES) for _ in range(n)]
@@ -83,8 +97,12 @@ def shard_fn(shard, nshards, seed, tier, exe, npairs):
 def run(tier, seed):
     bdir = build.build("asan")
     chk = core.Check(PID, tier, seed)
+    rd = core.record_dir(PID) if tier == "thorough" else None
     sh = core.parallel(shard_fn, seed=seed, tier=tier, exe=bdir + "/jcdrv", npairs=400000 if tier == "quick" else 3000000)
     chk.absorb(sh)
+    if rd:
+        os.environ.pop("VF_RECORD_DIR", None)
+        core.memcheck_recorded(chk, build.build("plain"), rd)
     chk.rule = ("(tree, return-code schedule) pairs: trees incl. empty containers, null leaves and members; schedules indexed by call number drawing from CONTINUE/SKIP/POP/STOP/ERROR and invalid codes "
                 "(1, -2, 12345, 99), dense or with a single interesting code, with a default code after the schedule ends.  The full callback log (node identity, flags, parent identity, key or index) and "
                 "json_c_visit's return value are compared with a reference traversal written from json_visit.h. evaluations = visits; distinct = distinct (tree, schedule)")
